@@ -483,8 +483,19 @@ async def _run_impl(sc):
     steps = []
     ops = []
     budget = sc.get('budget', 200000)
+    # "late sink": Bumble's channels have no sink for the first sink_after operations
+    held_sinks = None
+    if sc.get('sink_after'):
+        held_sinks = [ch.sink for ch in B.chans]
+        for ch in B.chans:
+            ch.sink = None
 
     async def do(op):
+        nonlocal held_sinks
+        if held_sinks is not None and len(steps) >= sc['sink_after']:
+            for ch, sk in zip(B.chans, held_sinks):
+                ch.sink = sk
+            held_sinks = None
         log = {'AB': [], 'BA': []}
         wires.log = log
         s0 = len(sinks)
@@ -519,6 +530,7 @@ async def _run_impl(sc):
             'op': op,
             'delivered': delivered,
             'raised': raised,
+            'b_has_sink': held_sinks is None,
             'AB': [tag('AB', c, p, m) for c, p, m in log['AB']],
             'BA': [tag('BA', c, p, m) for c, p, m in log['BA']],
             'sinks': sinks[s0:],
@@ -655,6 +667,9 @@ def oracle(sc, res):
             sunk[(side, idx)] = pos + len(data)
     if res['exhausted']:
         fail('budget', 'step budget exhausted before the wires emptied')
+    if sc.get('sink_after'):
+        # a receiver without a sink is not "consuming": only the safety clauses above apply
+        return [b for b in bad if not b[0].startswith('stream')]
     for i in range(n):
         for s, r, d in (('A', 'B', 'AB'), ('B', 'A', 'BA')):
             w = res['written'].get((s, i), b'')
@@ -727,6 +742,50 @@ def pair_model_exprs(sc, res):
     return exprs, meta
 
 
+def multi_model_expr(sc, res):
+    """m_run of the n-channel system on the whole schedule (pair mode, n >= 2)."""
+    ma, pa, ca = sc['spec_a']
+    mb, pb, cb = sc['spec_b']
+    eps_a, eps_b = [], []
+    for i in range(res['n']):
+        (a_src, a_dst), (b_src, b_dst) = res['cids'][i]
+        eps_a.append(f'ep_init KDst {a_src} {a_dst} {cb} {mb} {pb} {ca}')
+        eps_b.append(f'ep_init KDst {b_src} {b_dst} {ca} {ma} {pa} {cb}')
+    labels = []
+    offs = {}
+    for st in res['steps']:
+        op = st['op']
+        if op[0] == 'W':
+            key = (op[1], op[2])
+            off = offs.get(key, 0)
+            labels.append(f"MWrite{op[1]} {op[2]} (mk_data {off + (0 if op[1] == 'A' else 97) + 13 * op[2]} {op[3]})")
+            offs[key] = off + op[3]
+        else:
+            labels.append('MDeliver' + op[1])
+    return (f"map obs_mres (snd (m_run (mkM [{'; '.join(eps_a)}] [{'; '.join(eps_b)}] [] []) "
+            f"[{'; '.join(labels)}]))")
+
+
+def impl_obs_multi(res):
+    out = []
+    for st in res['steps']:
+        def pk(ts):
+            r = []
+            for t in ts:
+                if t[1] == 'F':
+                    r.append([0, t[2], obs_bytes(t[3])])
+                elif t[1] == 'C':
+                    r.append([1, t[2], [t[3], [0, 0], []]])
+                else:
+                    r.append([2, t[2], []])
+            return r
+        sa = [[j, obs_bytes(d)] for s, j, d in st['sinks'] if s == 'A']
+        sb = [[j, obs_bytes(d)] for s, j, d in st['sinks'] if s == 'B']
+        out.append([pk(st['AB']), pk(st['BA']), sa, sb,
+                    [[d[0] for d in st['drained']], [d[1] for d in st['drained']]], [False, False]])
+    return out
+
+
 def impl_obs_pair(res, i, idxs):
     out = []
     for k in idxs:
@@ -794,7 +853,11 @@ def foreign_model_exprs(sc, res):
         mb, pb, cb = sc['spec_b']
         init = f'(ep_init KDst {b_src} {b_dst} {ca} {ma} {pa} {cb})'
         lets = ''.join(f'let {name} := enc_sdu (mk_data {s0} {sl}) in ' for (s0, sl), name in sdus.items())
-        exprs.append(f"{lets}map obs_eres (snd (ep_run {init} [{'; '.join(evs)}]))")
+        if sc.get('sink_after'):
+            flagged = [f"({'true' if res['steps'][k]['b_has_sink'] else 'false'}, {e})" for k, e in zip(idxs, evs)]
+            exprs.append(f"{lets}map obs_eres (snd (ep_run_s {init} [{'; '.join(flagged)}]))")
+        else:
+            exprs.append(f"{lets}map obs_eres (snd (ep_run {init} [{'; '.join(evs)}]))")
         meta.append((i, idxs))
     return exprs, meta
 
@@ -894,6 +957,8 @@ def gen_scenario(rng, big=False, quick=False):
         ops.insert(0, ['W', side, 0, rng.choice(write_sizes(rng, peer, big))])
     sc['ops'] = ops
     sc['tail'] = [rng.below(2) for _ in range(rng.choice([1, 2, 3, 7]))]
+    if sc['mode'] == 'foreign' and not big and rng.chance(1, 8):
+        sc['sink_after'] = rng.range(1, len(ops))      # frames reach Bumble before the application set a sink
     return sc
 
 
@@ -917,6 +982,168 @@ def load_corpus(ctx):
         with open(p) as f:
             out.append(json.load(f)['replay'])
     return out
+
+
+# ----------------------------------------------------------------------------- shape translator
+# Normalised bodies (docstrings and logger calls removed, ast.unparse formatting) of the anchored
+# functions, with {holes} for the comparison operators (names ending in _cmp) and the integer
+# constants the model is parametrised by.  Any other difference is unrecognised: fail closed.
+SHAPE_TEMPLATES = {
+    'on_pdu': """def on_pdu(self, pdu: bytes) -> None:
+    if self.sink is None:
+        return
+    if self.state != self.State.CONNECTED:
+        pass
+    if self.peer_credits {nocredit_cmp} {nocredit_const}:
+        pass
+    else:
+        self.peer_credits -= {rx_dec}
+        if self.peer_credits {replenish_cmp} self.peer_credits_threshold:
+            self.send_control_frame(L2CAP_LE_Flow_Control_Credit(identifier=self.manager.next_identifier(self.connection), cid=self.source_cid, credits=self.peer_max_credits - self.peer_credits))
+            self.peer_credits = self.peer_max_credits
+    if self.in_sdu is None:
+        self.in_sdu = pdu
+    else:
+        self.in_sdu += pdu
+    if self.in_sdu_length {unknown1_cmp} {unknown1}:
+        if len(self.in_sdu) {hdr_cmp} {hdr_len}:
+            self.in_sdu_length = struct.unpack_from('<H', self.in_sdu, 0)[0]
+    if self.in_sdu_length {unknown2_cmp} {unknown2}:
+        return
+    if len(self.in_sdu) {incomplete_cmp} {incomplete_hdr} + self.in_sdu_length:
+        return
+    if len(self.in_sdu) {overflow_cmp} {overflow_hdr} + self.in_sdu_length:
+        self.in_sdu = None
+        self.in_sdu_length = 0
+        return
+    self.sink(self.in_sdu[{sink_skip}:])
+    self.in_sdu = None
+    self.in_sdu_length = 0""",
+    'process_output': """def process_output(self) -> None:
+    while self.credits {loop_cmp} {loop_const}:
+        if self.out_sdu is not None:
+            packet = self.out_sdu[:self.peer_mps]
+            self.send_pdu(packet)
+            self.credits -= {tx_dec}
+            if len(packet) {whole_cmp} len(self.out_sdu):
+                self.out_sdu = None
+            else:
+                self.out_sdu = self.out_sdu[len(packet):]
+            continue
+        if self.out_queue:
+            payload = b''
+            while self.out_queue and len(payload) {gather_cmp} self.peer_mtu:
+                chunk = self.out_queue[0][:self.peer_mtu - len(payload)]
+                payload += chunk
+                self.out_queue[0] = self.out_queue[0][len(chunk):]
+                if len(self.out_queue[0]) {empty_cmp} {empty_const}:
+                    self.out_queue.popleft()
+            assert len(payload) != 0
+            self.out_sdu = struct.pack('<H', len(payload)) + payload
+        else:
+            self.drained.set()
+            return""",
+    'write': """def write(self, data: bytes) -> None:
+    if self.state != self.State.CONNECTED:
+        return
+    self.out_queue.append(data)
+    self.drained.clear()
+    self.process_output()""",
+    'on_credits': """def on_credits(self, credits: int) -> None:
+    self.credits += credits
+    self.process_output()""",
+    'send_pdu': """def send_pdu(self, pdu: SupportsBytes | bytes) -> None:
+    self.manager.send_pdu(self.connection, self.destination_cid, pdu)""",
+}
+# statements __init__ must contain exactly once each (other attributes may come and go)
+INIT_REQUIRED = [
+    r'self\.credits = credits',
+    r'self\.peer_mtu = peer_mtu',
+    r'self\.peer_mps = peer_mps',
+    r'self\.peer_credits = peer_credits',
+    r'self\.peer_max_credits = self\.peer_credits',
+    r'self\.peer_credits_threshold = self\.peer_max_credits // (?P<thresh_div>\d+)',
+    r'self\.in_sdu = None',
+    r'self\.in_sdu_length = 0',
+    r'self\.out_queue = deque\(\)',
+    r'self\.out_sdu = None',
+    r'self\.drained = asyncio\.Event\(\)',
+    r'self\.drained\.set\(\)',
+]
+CMP_COQ = {'==': 'CEq', '!=': 'CNe', '<': 'CLt', '<=': 'CLe', '>': 'CGt', '>=': 'CGe'}
+SHAPE_FIELDS = ['thresh_div', 'nocredit_cmp', 'nocredit_const', 'rx_dec', 'replenish_cmp', 'unknown1_cmp', 'unknown1',
+                'hdr_cmp', 'hdr_len', 'unknown2_cmp', 'unknown2', 'incomplete_cmp', 'incomplete_hdr', 'overflow_cmp',
+                'overflow_hdr', 'sink_skip', 'loop_cmp', 'loop_const', 'tx_dec', 'whole_cmp', 'gather_cmp',
+                'empty_cmp', 'empty_const']
+
+
+def normalised_source(f):
+    """ast.unparse of a function without docstrings and logger calls (bodies left empty become `pass`)."""
+    tree = ast.parse(textwrap.dedent(inspect.getsource(f))).body[0]
+
+    class Strip(ast.NodeTransformer):
+        def visit_Expr(self, n):
+            if isinstance(n.value, ast.Constant) and isinstance(n.value.value, str):
+                return None
+            if isinstance(n.value, ast.Call) and ast.unparse(n.value.func).startswith('logger.'):
+                return None
+            return n
+
+    tree = Strip().visit(tree)
+    for n in ast.walk(tree):
+        for fld in ('body', 'orelse', 'finalbody'):
+            if fld == 'body' and hasattr(n, 'body') and isinstance(n.body, list) and not n.body:
+                n.body = [ast.Pass()]
+    ast.fix_missing_locations(tree)
+    return ast.unparse(tree)
+
+
+def template_regex(template):
+    import re
+    out = []
+    pos = 0
+    for m in re.finditer(r'\{([a-z0-9_]+)\}', template):
+        out.append(re.escape(template[pos:m.start()]))
+        name = m.group(1)
+        out.append(f'(?P<{name}>==|!=|<=|>=|<|>)' if name.endswith('_cmp') else f'(?P<{name}>-?\\d+)')
+        pos = m.end()
+    out.append(re.escape(template[pos:]))
+    return re.compile(''.join(out) + r'\Z')
+
+
+def read_shape(l2cap):
+    import re
+    C = l2cap.LeCreditBasedChannel
+    holes = {}
+    for name, template in SHAPE_TEMPLATES.items():
+        src = normalised_source(getattr(C, name))
+        m = template_regex(template).match(src)
+        if not m:
+            # name the first line that differs
+            a, b = src.splitlines(), template.splitlines()
+            k = next((i for i, (x, y) in enumerate(zip(a, b))
+                      if not template_regex(y.strip()).match(x.strip())), min(len(a), len(b)))
+            raise RuntimeError(f'LeCreditBasedChannel.{name}: body does not match the recognised shape at line {k}: '
+                               f'{(a[k].strip() if k < len(a) else "<end>")!r}')
+        holes.update(m.groupdict())
+    init = normalised_source(C.__init__)
+    for pat in INIT_REQUIRED:
+        ms = list(re.finditer(r'^\s*' + pat + r'\s*$', init, flags=re.M))
+        if len(ms) != 1:
+            raise RuntimeError(f'LeCreditBasedChannel.__init__: expected exactly one statement {pat!r}, found {len(ms)}')
+        holes.update(ms[0].groupdict())
+    missing = [f for f in SHAPE_FIELDS if f not in holes]
+    if missing:
+        raise RuntimeError(f'shape fields not found: {missing}')
+    return holes
+
+
+def shape_coq(holes):
+    args = []
+    for f in SHAPE_FIELDS:
+        v = holes[f]
+        args.append(CMP_COQ[v] if f.endswith('_cmp') else ('(' + v + ')' if v.startswith('-') else v))
+    return 'mkShape ' + ' '.join(args)
 
 
 # ----------------------------------------------------------------------------- translator (tie 1)
@@ -1042,8 +1269,12 @@ def regen(ctx):
         'max_mps': l2cap.L2CAP_LE_CREDIT_BASED_CONNECTION_MAX_MPS,
         'max_credits': l2cap.L2CAP_LE_CREDIT_BASED_CONNECTION_MAX_CREDITS,
     }
+    holes = read_shape(l2cap)
+    ctx.extra['source_shape'] = {f: holes[f] for f in SHAPE_FIELDS}
     text = ('(* GENERATED by tools/harness/c07.py regen() from bumble/l2cap.py - do not edit *)\n'
             'From Coq Require Import ZArith.\nFrom BV Require Import Model.LeCoc.\nOpen Scope Z_scope.\n\n'
+            '(* comparison operators and constants of LeCreditBasedChannel.__init__ / on_pdu / process_output *)\n'
+            f'Definition gen_shape : shape :=\n  {shape_coq(holes)}.\n\n'
             'Definition gen_lecoc_keysel (k : kind) : keysel :=\n  match k with\n'
             + ''.join(f'  | {k} => {table[k]}\n' for k in ('LeInitiator', 'LeAcceptor', 'EnhInitiator', 'EnhAcceptor'))
             + '  end.\n\n'
@@ -1054,6 +1285,15 @@ def regen(ctx):
 
 # ----------------------------------------------------------------------------- run
 def check_scenario(ctx, sc, res, model_vals, meta, foreign):
+    if meta == 'multi':
+        mm = _canon(model_vals[0])
+        ii = _canon(impl_obs_multi(res))
+        if mm != ii:
+            k = next((j for j, (a, b) in enumerate(zip(mm, ii)) if a != b), min(len(mm), len(ii)))
+            ctx.disagree('ChannelManager pair with several channels vs Model/LeCoc.v m_run',
+                         {'scenario': sc, 'first_difference_at_step': k},
+                         mm[k] if k < len(mm) else None, ii[k] if k < len(ii) else None)
+        return
     for (i, idxs), m in zip(meta, model_vals):
         if foreign:
             mm, ii = norm_model_foreign(m), impl_obs_foreign(res, i, idxs)
@@ -1088,7 +1328,10 @@ def evaluate(ctx, scs, label):
             ctx.violation(f"setup:{sc['mode']}:{sc['kind']}", f"channel set-up failed: {res['setup_error']}", sc)
             continue
         foreign = sc['mode'] == 'foreign'
-        ex, meta = (foreign_model_exprs if foreign else pair_model_exprs)(sc, res)
+        if not foreign and res['n'] >= 2:
+            ex, meta = [multi_model_expr(sc, res)], 'multi'
+        else:
+            ex, meta = (foreign_model_exprs if foreign else pair_model_exprs)(sc, res)
         tex = tables_exprs(res)
         index.append((sc, res, len(exprs), len(ex), meta, foreign, tex))
         exprs.extend(ex)
@@ -1125,6 +1368,11 @@ def evaluate(ctx, scs, label):
         ctx.count('credit_packets', ncred)
         ctx.count('steps', len(res['steps']))
         ctx.count('sender_waited_for_credits' if waited else 'sender_never_waited')
+        if sc.get('sink_after'):
+            ctx.count('late_sink_scenarios')
+        if sc['mode'] == 'pair' and res['n'] >= 2:
+            ctx.count('multi_channel_m_run_scenarios')
+        ctx.count(f"channels_per_link.{res['n']}")
         for s in (sc['spec_a'], sc['spec_b']):
             ctx.count(f'mtu.{s[0]}')
             ctx.count(f'mps.{s[1]}')
